@@ -184,6 +184,9 @@ def impl(case):
         return guarded(lambda: canon(mk(case["a"]) @ mk(case["b"])))
     if op == "ps.commutes":
         return guarded(lambda: bool(mk(case["a"]).commutes_with(mk(case["b"]))))
+    if op == "wps.commutes":
+        # the same question asked of two WEIGHTED strings (weights never matter for commutation)
+        return guarded(lambda: bool(WPS(mk(case["a"]), build_w(case["wa"])).commutes_with(WPS(mk(case["b"]), build_w(case["wb"])))))
     if op == "ps.herm":
         return guarded(lambda: bool(mk(case["a"]).is_hermitian()))
     if op == "ps.str":
@@ -290,6 +293,8 @@ def arr_json(spec):
 
 def model_req(case, o=None):
     op = case["op"]
+    if op == "wps.commutes":
+        return {"op": "ps.commutes", "a": case["a"], "b": case["b"]}
     if op == "ps.entries":
         # the model is asked for every entry the implementation reports in the selected rows and for the entry the definition puts there
         n = len(case["a"]["z"])
@@ -390,6 +395,8 @@ def oracle(case, o):
         return []
     op, bad = case["op"], []
     PS = _ctx["PS"]
+    if op == "wps.commutes":
+        op = "ps.commutes"
     if op in ("ps.mul", "ps.commutes"):
         a, b = case["a"], case["b"]
         if len(a["z"]) != len(b["z"]):
@@ -898,6 +905,12 @@ def gen_cases(tier, rng):
                 p = {"z": [0] * n, "x": [int(i >= n - 2) for i in range(n)], "q": rng.randint(0, 3)}
             rows = [0, 1, 2 ** n - 1, 2 ** (n - 1), 2 ** (n - 1) - 1] + [rng.randrange(2 ** n) for _ in range(40)] + [1 << rng.randrange(n) for _ in range(8)]
             yield {"op": "ps.entries", "a": p, "rows": rows}
+    # ---- commutation asked of weighted strings (zero, negative and complex weights)
+    for _ in range(2000 if T else 300):
+        n = rng.randint(1, 8)
+        a, b = rand_ps(rng, n), rand_ps(rng, n)
+        yield {"op": "wps.commutes", "a": a, "b": b, "wa": rng.choice([["int", 0], rand_weight(rng, "real"), rand_weight(rng, "complex")]),
+               "wb": rand_weight(rng, rng.choice(["int", "real", "complex"]))}
     # ---- unequal lengths (rejected by NumPy)
     for _ in range(200 if T else 40):
         a, b = rand_ps(rng, rng.randint(0, 4)), rand_ps(rng, rng.randint(0, 4))
